@@ -9,6 +9,7 @@ sound there because the generic constraint algebra is exact (C16: `GC.intersect_
 import PoetryVerif.Proofs.MarkerAlgSoundOps
 import PoetryVerif.Proofs.Generic
 import PoetryVerif.Proofs.MarkerLeaf
+import PoetryVerif.Proofs.MarkerAlgSoundVals
 
 set_option linter.unusedSimpArgs false
 set_option linter.unusedVariables false
@@ -124,6 +125,23 @@ theorem strLeaf_atomic_eval {E : Env} {l : Leaf} (h : StrLeaf E l) {gc : GC} {v 
   rw [hv] at hv'; cases hv'
   exact strLeaf_eval he
 
+/-- the atoms of a leaf's string constraint -/
+def leafAtoms (l : Leaf) : List Generic.Atom :=
+  match l.c with
+  | .gen c => c.atoms
+  | .ver _ => []
+
+/-- the string fragment restricted to variable names satisfying `N` and atom values satisfying `W` -/
+def StrLeafW (N W : String → Prop) (E : Env) (l : Leaf) : Prop :=
+  StrLeaf E l ∧ N l.name ∧ ∀ x ∈ leafAtoms l, W x.value
+
+/-- the constructor fact, for names in `N` and values in `W` -/
+def MkAtomOKW (N W : String → Prop) (E : Env) : Prop :=
+  ∀ (n : String) (a : Generic.Atom) (s : Single), N n → W a.value → (n == "extra") = false → isPyName n = false →
+    (∃ v, E.get? n = some v) → a.x = false → a.isEqNe = true →
+    mkSingleOfC n (.gen (.s (.atom a))) = .ok s →
+    s.name = n ∧ s.swapped = false ∧ s.c = .gen (.s (.atom a)) ∧ s.op = a.op.str ∧ s.value = a.value
+
 set_option hygiene false in
 /-- the tail of `_merge_single_markers` once the merged constraint `r0` is known (used for both merge
 classes) -/
@@ -139,12 +157,12 @@ macro "str_tail" : tactic => `(tactic| (
   by_cases q3 : (LeafC.gen r0).eqv (LeafC.gen g1) = true
   · rw [if_pos q3, pure_ok] at h; cases h
     have hr : r0 = g1 := by simpa [LeafC.eqv] using q3
-    exact ⟨by simpa using h1, by simp [e1, hr]⟩
+    exact ⟨(M.good_leaf _).2 hh1, by simp [e1, hr]⟩
   rw [if_neg q3] at h
   by_cases q4 : (LeafC.gen r0).eqv (LeafC.gen g2) = true
   · rw [if_pos q4, pure_ok] at h; cases h
     have hr : r0 = g2 := by simpa [LeafC.eqv] using q4
-    exact ⟨by simpa using h2, by simp [e2, hr]⟩
+    exact ⟨(M.good_leaf _).2 hh2, by simp [e2, hr]⟩
   rw [if_neg q4] at h
   obtain ⟨b, hb, h⟩ := bind_ok.1 h
   cases b
@@ -156,7 +174,8 @@ macro "str_tail" : tactic => `(tactic| (
       split at h
       · rw [pure_ok] at h; cases h
         have hs : StrLeaf E (.aunion l1.name (.union ms)) := ⟨hx1, hp1, ⟨v2, hv1⟩, hw0⟩
-        exact ⟨by simpa using hs, by simpa using strLeaf_atomic_eval hs rfl hv1⟩
+        exact ⟨(M.good_leaf _).2 (⟨hs, hh1.2.1, hv0⟩ : StrLeafW N W E (.aunion l1.name (.union ms))),
+          by simpa using strLeaf_atomic_eval hs rfl hv1⟩
       · rw [pure_ok] at h; cases h
     | s gs =>
       cases gs with
@@ -166,7 +185,8 @@ macro "str_tail" : tactic => `(tactic| (
         split at h
         · rw [pure_ok] at h; cases h
           have hs : StrLeaf E (.amulti l1.name (.s (.multi x cs))) := ⟨hx1, hp1, ⟨v2, hv1⟩, hw0⟩
-          exact ⟨by simpa using hs, by simpa using strLeaf_atomic_eval hs rfl hv1⟩
+          exact ⟨(M.good_leaf _).2 (⟨hs, hh1.2.1, hv0⟩ : StrLeafW N W E (.amulti l1.name (.s (.multi x cs)))),
+            by simpa using strLeaf_atomic_eval hs rfl hv1⟩
         · rw [pure_ok] at h; cases h
       | any => dsimp only at h; rw [pure_ok] at h; cases h
       | empty => dsimp only at h; rw [pure_ok] at h; cases h
@@ -183,21 +203,31 @@ macro "str_tail" : tactic => `(tactic| (
           have := hw0; simpa [GC.wfG, GS.wfG] using this
         have hxa : a.x = false := hwa.1
         have hea : a.isEqNe = true := hwa.2
-        obtain ⟨k1, k2, k3, k4, k5⟩ := H l1.name a s hx1 hp1 ⟨v2, hv1⟩ hxa hea hs
+        have hWa : W a.value := hv0 a (by simp [GC.atoms, GS.atoms])
+        obtain ⟨k1, k2, k3, k4, k5⟩ := H l1.name a s hh1.2.1 hWa hx1 hp1 ⟨v2, hv1⟩ hxa hea hs
         have hsl : StrLeaf E (.single s) := by
           refine ⟨by rw [k1]; exact hx1, by rw [k1]; exact hp1, ⟨v2, by rw [k1]; exact hv1⟩, k2, a, k3, hxa, hea, k4, k5⟩
-        exact ⟨by simpa using hsl, by simpa using strLeaf_atomic_eval hsl k3 (by simpa [Leaf.name, k1] using hv1)⟩
+        have hslw : StrLeafW N W E (.single s) := by
+          refine ⟨hsl, by simpa [Leaf.name, k1] using hh1.2.1, ?_⟩
+          intro x hx
+          simp only [leafAtoms, Leaf.c, k3, GC.atoms, GS.atoms, List.mem_singleton] at hx
+          subst hx; exact hWa
+        exact ⟨(M.good_leaf _).2 hslw, by simpa using strLeaf_atomic_eval hsl k3 (by simpa [Leaf.name, k1] using hv1)⟩
       | any => dsimp only at hb; cases hb
       | empty => dsimp only at hb; cases hb
       | multi x cs => dsimp only at hb; cases hb))
 
-/-- the part of `_merge_single_markers` after the constraint `rc` has been computed, on the fragment -/
-theorem strLeaf_merge {E : Env} (H : MkAtomOK E) (l1 l2 : Leaf) (im : Bool) (r : M)
-    (h1 : StrLeaf E l1) (h2 : StrLeaf E l2) (h : mergeLeaves l1 l2 im = .ok (some r)) :
-    M.Good (StrLeaf E) r ∧
+/-- `_merge_single_markers` on the fragment: every outcome is good and is the exact conjunction/disjunction -/
+theorem strLeafW_merge {N W : String → Prop} {E : Env} (H : MkAtomOKW N W E) (l1 l2 : Leaf) (im : Bool) (r : M)
+    (hh1 : StrLeafW N W E l1) (hh2 : StrLeafW N W E l2) (h : mergeLeaves l1 l2 im = .ok (some r)) :
+    M.Good (StrLeafW N W E) r ∧
       M.sem (leafEval E) r = (if im then (leafEval E l1 && leafEval E l2) else (leafEval E l1 || leafEval E l2)) := by
+  have h1 := hh1.1
+  have h2 := hh2.1
   obtain ⟨hx1, hp1, g1, v1, hc1, hw1, hv1, he1⟩ := strLeaf_view h1
   obtain ⟨hx2, hp2, g2, v2, hc2, hw2, hv2, he2⟩ := strLeaf_view h2
+  have hW1 : ∀ x ∈ g1.atoms, W x.value := by have := hh1.2.2; simpa [leafAtoms, hc1] using this
+  have hW2 : ∀ x ∈ g2.atoms, W x.value := by have := hh2.2.2; simpa [leafAtoms, hc2] using this
   have e1 := strLeaf_eval he1
   have e2 := strLeaf_eval he2
   obtain ⟨hp1a, hp1b⟩ := isPyName_false hp1
@@ -216,14 +246,14 @@ theorem strLeaf_merge {E : Env} (H : MkAtomOK E) (l1 l2 : Leaf) (im : Bool) (r :
   rw [hc1, hc2] at h
   dsimp only at h
   have key : ∃ r0, (if im = true then (LeafC.gen g1).intersect (.gen g2) else (LeafC.gen g1).union (.gen g2)) =
-        .ok (.gen r0) ∧ r0.wfG = true ∧
+        .ok (.gen r0) ∧ r0.wfG = true ∧ (∀ x ∈ r0.atoms, W x.value) ∧
         r0.den v2 = (if im = true then (g1.den v2 && g2.den v2) else (g1.den v2 || g2.den v2)) := by
     cases im
-    · obtain ⟨r0, a, b, c⟩ := GC.unionWith_G g1 g2 hw1 hw2
-      exact ⟨r0, by simp [LeafC.union, a, Except.map], b, by simp [c]⟩
-    · obtain ⟨r0, a, b, c⟩ := GC.intersect_G g1 g2 hw1 hw2
-      exact ⟨r0, by simp [LeafC.intersect, a, Except.map], b, by simp [c]⟩
-  obtain ⟨r0, hk, hw0, hden⟩ := key
+    · obtain ⟨r0, a, b, c, d⟩ := GC.unionWith_GW W g1 g2 hw1 hw2 hW1 hW2
+      exact ⟨r0, by simp [LeafC.union, a, Except.map], b, c, by simp [d]⟩
+    · obtain ⟨r0, a, b, c, d⟩ := GC.intersect_GW W g1 g2 hw1 hw2 hW1 hW2
+      exact ⟨r0, by simp [LeafC.intersect, a, Except.map], b, c, by simp [d]⟩
+  obtain ⟨r0, hk, hw0, hv0, hden⟩ := key
   have hgoal : (if im = true then (leafEval E l1 && leafEval E l2) else (leafEval E l1 || leafEval E l2)) =
       r0.den v2 := by rw [hden, e1, e2]
   rw [hgoal]
@@ -238,10 +268,25 @@ theorem strLeaf_merge {E : Env} (H : MkAtomOK E) (l1 l2 : Leaf) (im : Bool) (r :
     rw [hk] at hrc; cases hrc
     str_tail
 
-/-- **`LeafSpec` holds on the string fragment**, given the constructor fact `MkAtomOK` -/
-theorem leafSpec_str {E : Env} (H : MkAtomOK E) : LeafSpec (leafEval E) (StrLeaf E) where
-  congr := strLeaf_congr
-  merge := fun l1 l2 im r h1 h2 h => strLeaf_merge H l1 l2 im r h1 h2 h
+/-- **`LeafSpec` holds on the string fragment** (names in `N`, values in `W`), given the constructor fact -/
+theorem leafSpec_strW {N W : String → Prop} {E : Env} (H : MkAtomOKW N W E) :
+    LeafSpec (leafEval E) (StrLeafW N W E) where
+  congr := fun a b ha hb h => strLeaf_congr a b ha.1 hb.1 h
+  merge := fun l1 l2 im r h1 h2 h => strLeafW_merge H l1 l2 im r h1 h2 h
+
+/-- transport of the leaf facts along an equivalence of invariants -/
+theorem LeafSpec.of_iff {ev : Leaf → Bool} {G G' : Leaf → Prop} (hiff : ∀ l, G l ↔ G' l) (S : LeafSpec ev G) :
+    LeafSpec ev G' where
+  congr := fun a b ha hb h => S.congr a b ((hiff a).2 ha) ((hiff b).2 hb) h
+  merge := fun l1 l2 im r h1 h2 h => by
+    obtain ⟨g, e⟩ := S.merge l1 l2 im r ((hiff l1).2 h1) ((hiff l2).2 h2) h
+    exact ⟨M.good_mono (fun l hl => (hiff l).1 hl) r g, e⟩
+
+/-- the unrestricted form (every name, every value), given the universal constructor fact -/
+theorem leafSpec_str {E : Env} (H : MkAtomOK E) : LeafSpec (leafEval E) (StrLeaf E) :=
+  LeafSpec.of_iff (G := StrLeafW (fun _ => True) (fun _ => True) E)
+    (fun l => ⟨fun h => h.1, fun h => ⟨h, trivial, fun _ _ => trivial⟩⟩)
+    (leafSpec_strW (fun n a s _ _ => H n a s))
 
 /-! ### the constructor fact `MkAtomOK` on plain values (through C06's text-level lemmas) -/
 
@@ -342,5 +387,18 @@ theorem mkAtomOK_plain (n : String) (a : Generic.Atom) (s : Single) (hn : n ∈ 
     simp [hn2, Generic.Op.str]
   | in_ => simp [Generic.Atom.isEqNe] at he
   | nc => simp [Generic.Atom.isEqNe] at he
+
+/-- **the fully discharged string fragment**: canonical string variables, plain values -/
+def PlainStrLeaf (E : Env) : Leaf → Prop := StrLeafW (fun n => n ∈ plainStringVars) PlainValue E
+
+theorem mkAtomOKW_plain (E : Env) : MkAtomOKW (fun n => n ∈ plainStringVars) PlainValue E :=
+  fun n a s hn hv _ _ _ hx he h => mkAtomOK_plain n a s hn hv hx he h
+
+/-- **`LeafSpec` on the plain string fragment, no hypothesis left** -/
+theorem leafSpec_strPlain (E : Env) : LeafSpec (leafEval E) (PlainStrLeaf E) :=
+  leafSpec_strW (mkAtomOKW_plain E)
+
+theorem plainStrLeaf_evaluable {E : Env} {l : Leaf} (h : PlainStrLeaf E l) : ∃ b, l.validate E = .ok b :=
+  strLeaf_evaluable h.1
 
 end Poetry.Marker
